@@ -568,6 +568,29 @@ class Analysis:
                             nxt.append((tgt, ns2, e2))
                 else:
                     self._call_env(ns, t, env, dst, body)
+                    if ("core::mem::replace" in ns or "core::mem::take" in ns) and t["args"]:
+                        # `mem::replace(&mut state.loop_state, X)`: a write of the abstract loop state
+                        rl = op_local(t["args"][0])
+                        is_ls = False
+                        for _ in range(3):       # through reborrows `&mut *r`
+                            nxt_rl = None
+                            for s2 in [x for bb2 in b.reachable() for x in b.blocks[bb2]["s"]]:
+                                if s2["k"] == "assign" and s2["place"]["l"] == rl and s2["rv"]["k"] == "ref":
+                                    if self._is_ls_place(s2["rv"]["place"]):
+                                        is_ls = True
+                                    elif s2["rv"]["place"]["p"] == ["*"]:
+                                        nxt_rl = s2["rv"]["place"]["l"]
+                            if is_ls or nxt_rl is None:
+                                break
+                            rl = nxt_rl
+                        if is_ls:
+                            if dst is not None:
+                                if st.ls:
+                                    env[dst] = (st.ls,)
+                                else:
+                                    env.pop(dst, None)
+                            nv = env.get(op_local(t["args"][1])) if len(t["args"]) > 1 else None
+                            st = st.copy(ls=nv[0] if nv else None)
                     if EVSEND in ns and len(t["args"]) > 1:
                         v = env.get(op_local(t["args"][1]))
                         if v and v[0] == "ConnectionClosed":
